@@ -219,7 +219,7 @@ Theorem C17_validation_errors : forall p,
 Proof. exact ds_validate_errors. Qed.
 Print Assumptions C17_validation_errors.
 
-(* katdal.open: one RDB file validates like the data source; a list of files admits `channels` only (IndexError 4
+(* katdal.open: one RDB file validates like the data source; a list of files allows `channels` only (IndexError 4
    for anything else, before any file is opened); other formats accept no preselect at all *)
 Theorem C17_validation_open_paths : forall p,
   open_validate KRdb p = ds_validate p /\
